@@ -6,8 +6,8 @@ META = dict(
     explanation="Quoting functions only: Executor.QuoteEntry (sh/bash escaper and fish escaper) and escapeSingleQuote are applied to every entry "
                 "inside the bound over an alphabet of shell metacharacters; a model of POSIX (and fish single-quote) word lexing must read the result "
                 "back as exactly one word equal to the entry with no active metacharacter.",
-    functions=["util.NewExecutor", "util.(*Executor).QuoteEntry", "fzf.escapeSingleQuote"],
-    outside=["the placeholder regex and template scan", "replacePlaceholder (closure not lifted)", "{f} temp files", "tmux/proxy script assembly", "the real shells (used only in the seeded demonstrations)"],
+    functions=["util.NewExecutor", "util.(*Executor).QuoteEntry", "fzf.escapeSingleQuote", "replacePlaceholder: placeholder callback (lifted)", "fzf.parsePlaceholder"],
+    outside=["the placeholder regex and template scan", "{f} temp files", "tmux/proxy script assembly", "the real shells (used only in the seeded demonstrations)"],
     models=["strings.NewReplacer/(*Replacer).Replace -> zzv.M_Replacer_Replace (left-to-right, argument-order priority; validated natively)", "os.Getenv -> job configuration",
             "shell lexing reference zzShWords (trusted; written from POSIX sh quoting rules and fish's two-escape rule)"],
     assumptions=["entries without NUL over {' \\\\ a space $ ` \" newline ; *}"],
@@ -23,5 +23,6 @@ def suites(tier):
     cfg = dict(fish=1, nmax=3 if q else 4)
     jobs.append(dict(id="quote:withshell-fish", func="zzH_C12_quote", cfg=cfg, cfgs={"env:SHELL": "/bin/sh", "withshell": "/opt/fish -c"}))
     s1 = dict(UTIL, name="util", jobs=jobs)
-    jobs2 = [dict(id="esq", func="zzH_C12_esq", cfg=dict(nmax=4 if q else 5))]
+    jobs2 = [dict(id="esq", func="zzH_C12_esq", cfg=dict(nmax=4 if q else 5)),
+             dict(id="expand", func="zzH_C12_expand", cfg=dict(nmax=2 if q else 3), cfgs={"env:SHELL": "/bin/sh"})]
     return [s1, src_suite("src", jobs2)]
